@@ -14,7 +14,7 @@ REGEXES = [r'[a-c]+', r'\d{2}', r'a|ab', r'[^/]*x', r'(a|b)c', 'é+', r'[a-z]+?(
            # context-sensitive at their start: a filter sees the rest of the path as a string of its own ("matched once at the cursor")
            r'^[a-c]+', r'\b\d+', r'(?<!/)[a-z]+', r'\B7+', r'\A\w+', r'(?<![a-z])x+', r'^\d+$']       # the last three are textually the masks of the int / float / path filters
 NAMES = ['x', 'y', 'z', 'id', 'name_1', '_p', 'Q', 'int', 're']
-LIT_SEGS = ['a', 'ab', 'abc', 'b', 'a1', 'é', 'a-b', 'a.b', 'c', 'end', '1', 'ba']
+LIT_SEGS = ['a', 'ab', 'abc', 'b', 'a1', 'é', 'a-b', 'a.b', 'c', 'end', '1', 'ba', 'a}', '}}b', 'x>', '}', 'a+b']
 
 
 # --------------------------------------------------------------------------
@@ -253,9 +253,9 @@ def sample_value(rng, filt, arg):
     if filt is None:
         return rng.choice(['x', 'ab', 'a.b', 'é', '12', ' ', 'a\rb', '\r', 'a\nb', 'abc', 'b', '-1', 'a b', '日本', '', 'a:b', 'ü'])
     if filt == 'int':
-        return rng.choice(['0', '7', '-12', '007', '42', '٣', '1234567890123456789012', '-0'])
+        return rng.choice(['0', '7', '-12', '007', '42', '٣', '1234567890123456789012', '-0', '+3', '+0'])
     if filt == 'float':
-        return rng.choice(['1.5', '-0.25', '3', '0.00001', '12345678901234567890.5', '1.', '-7', '00.50'])
+        return rng.choice(['1.5', '-0.25', '3', '0.00001', '12345678901234567890.5', '1.', '-7', '00.50', '+1.5'])
     if filt == 'path':
         return rng.choice(['p/q', 'x', 'a/end/b', 'a//b', 'é/1', 'a/\r', 'end', '/'])
     return rng.choice({
@@ -278,7 +278,7 @@ def instantiate(rng, ast):
     return ''.join(out)
 
 
-PATH_ALPHA = ['a', 'b', 'c', '1', '/', '-', '.', 'é', '\r', 'x', '2', 'l', ' ']
+PATH_ALPHA = ['a', 'b', 'c', '1', '/', '-', '.', 'é', '\r', 'x', '2', 'l', ' ', '+', '}']
 
 
 def mutate(rng, s):
